@@ -196,9 +196,15 @@ func C13(c *fw.Ctx) {
 		V, P, F := model.KwVar, model.KwPrint, model.KwFun
 		decl := V + " total1 = 1; " + V + " total2 = 2; " + V + " total3 = 3; " + V + " total4 = 4;\n"
 		obj := V + " o = {count1: 1, count2: 2, count3: 3, count4: 4};\n"
+		bigKeys := ""
+		for i := 1; i <= 20; i++ {
+			bigKeys += fmt.Sprintf("item%d: %d, ", i, i)
+		}
+		obj += V + " big = {" + strings.TrimSuffix(bigKeys, ", ") + "};\n" + V + " nine = {p1: 1, p2: 2, p3: 3, p4: 4, p5: 5, p6: 6, p7: 7, p8: 8, p9: 9};\n"
 		faults := []string{
 			P + " total5;\n", "total5 = 1;\n", "total5();\n", P + " total;\n", P + " totl1;\n",
 			P + " o.count5;\n", "o.count5.x = 1;\n", model.BiDelete + "(o, \"count5\");\n", P + " o.count;\n", P + " o.cuont1;\n",
+			P + " big.item21;\n", P + " big.zz;\n", model.BiDelete + "(big, \"item0\");\n", "big.zz.k = 1;\n", P + " nine.p10;\n", model.BiDelete + "(nine, \"q\");\n",
 			F + " f(arg1, arg2, arg3, arg4) { " + P + " arg5; }\nf(1, 2, 3, 4);\n",
 			"{ " + V + " inner1 = 1; " + V + " inner2 = 2; { " + P + " inner3; } }\n",
 			P + " " + model.BiLen + "1([1]);\n", P + " " + model.BiMax + "x(1, 2);\n",
